@@ -3,6 +3,12 @@
 SRC=$1/verif
 cd $SRC || exit 1
 find . -type f -not -path './.git/*' -not -path './lean/.lake/*' -not -path './lean/MindsVerif/Gen/*' -not -path './gen/*' -not -path './replays/*' -not -path './evidence/*' -not -path '*/__pycache__/*' -not -path './seeded/*' -not -path './corpus/*' -not -name '.build.lock' | sed 's#^\./##' | while read f; do
+  own=$(/venv/bin/python -c "
+import json,sys,os
+o=json.load(open('/verif/tools/owners.json')); n=os.path.basename(os.path.dirname('$SRC'))
+pats=o.get(n)
+print(1 if pats is None or any(p in '$f' for p in pats) else 0)" 2>/dev/null)
+  if [ "$own" != "1" ]; then continue; fi
   if ! grep -qxF "$f" /tmp/base_files.txt; then
     if [ ! -f /verif/$f ] || ! cmp -s $f /verif/$f; then mkdir -p /verif/$(dirname $f); cp $f /verif/$f; echo "copied $f"; fi
   fi
